@@ -387,7 +387,9 @@ double HllArray<A>::getLowerBound(uint8_t numStdDev) const {
   const uint32_t configK = 1 << this->lgConfigK_;
   const double numNonZeros = ((curMin_ == 0) ? (configK - numAtCurMin_) : configK);
   const double relErr = HllUtil<A>::getRelErr(false, this->oooFlag_, this->lgConfigK_, numStdDev);
-  return fmax(getEstimate() / (1.0 + relErr), numNonZeros);
+  const double estimate = getEstimate();
+  // the number of non-zero registers is a hard lower bound, but the bound must not exceed the estimate
+  return fmin(estimate, fmax(estimate / (1.0 + relErr), numNonZeros));
 }
 
 template<typename A>
